@@ -1504,6 +1504,9 @@ struct TransitionBase {
 	#pragma warning(pop)
 #endif
 
+// only the payload-free base is packed: alignas(Payload) below must take effect
+#pragma pack(pop)
+
 template <typename TPayload>
 struct TransitionT final
 	: TransitionBase
@@ -1580,8 +1583,6 @@ struct TransitionT<void> final
 {
 	using TransitionBase::TransitionBase;
 };
-
-#pragma pack(pop)
 
 }
 
@@ -1709,6 +1710,9 @@ operator == (const TaskBase& lhs,
 		   lhs.destination == rhs.destination;
 }
 
+// only the payload-free base is packed: alignas(Payload) below must take effect
+#pragma pack(pop)
+
 template <typename TPayload>
 struct TaskT final
 	: TaskBase
@@ -1758,8 +1762,6 @@ struct TaskT<void> final
 {
 	using TaskBase::TaskBase;
 };
-
-#pragma pack(pop)
 
 }
 }
